@@ -33,11 +33,14 @@ SCENARIOS = [      # (script, events, failing handlers, handlers that call stop(
     (["start", "start"], 2, [1], [], "none", "start"),
     (["endrep", "start"], 1, [], [], "none", "none"),
     (["start", "endrep", "stop"], 2, [], [], "none", "none"),
+    (["start", "cleanup"], 2, [], [], "none", "none"),
+    (["start", "stop", "cleanup", "start"], 2, [1], [], "none", "none"),
     (["start", "stop", "start"], 3, [], [], "stop", "start"),
+    (["start", "cleanup", "endrep"], 2, [], [1], "none", "none"),
 ]
-STRICT = ["NoStuckState", "NoLostStart", "EndedFinal", "ThreadGoneAfterEnd", "RefusedWroteNothing", "StopEffective", "EndRepEffective"]
+STRICT = ["NoStuckState", "StartEffective", "NoSpuriousSegment", "CleanupFinal", "EndedFinal", "ThreadGoneAfterEnd", "RefusedWroteNothing", "StopEffective", "EndRepEffective"]
 LIVE = ["Settles", "EndedThreadGone", "EveryCommandReturns"]
-KNOWN = ["NoStuckStateK", "NoLostStartK", "EndedFinalK", "ThreadGoneK", "RefusedWroteNothing", "StopEffectiveK", "EndRepEffectiveK"]
+KNOWN = ["NoStuckStateK", "StartEffectiveK", "NoSpuriousSegment", "CleanupFinalK", "EndedFinalK", "ThreadGoneK", "RefusedWroteNothing", "StopEffectiveK", "EndRepEffectiveK"]
 
 
 def consts(script, nev, faulty, stoppers=(), onstart="none", onstop="none", fixes=(), anyto=False):
@@ -99,7 +102,17 @@ def signatures(log, final):
         if d["t"] == "c" and d["k"] == "W" and d["v"] == "rs" and d["x"] == "STARTING":
             nxt = next((e for e in log[k + 1:] if e["t"] == "w" and e["k"] == "ev" and e["v"] in ("clear", "woke")), None)
             prev_run = any(e["t"] == "w" and e["k"] == "W" and e["v"] == "runflag" for e in log[:k])
-            if prev_run and nxt is not None and nxt["v"] == "clear":
+            # the window: the run loop has already decided to leave (its last test of run_state failed, or it wrote STOPPED,
+            # or it wrote STOPPING at the natural end, i.e. right after ENDING); a start admitted while a handler is
+            # still running is NOT in the window: the pinned loop sees STARTING and keeps running
+            wacc = [e for e in log[:k] if e["t"] == "w" and (e["k"] == "exec" or (e["k"] in ("R", "W") and e["v"] in ("rs", "rep")))]
+            a = wacc[-1] if wacc else None
+            b = wacc[-2] if len(wacc) > 1 else None
+            left = a is not None and ((a["k"] == "R" and a["v"] == "rs" and a["x"] not in ("STARTING", "STARTED")) or
+                                      (a["k"] == "W" and a["v"] == "rs" and a["x"] == "STOPPED") or
+                                      (a["k"] == "R" and a["v"] == "rep") or
+                                      (a["k"] == "W" and a["v"] == "rs" and a["x"] == "STOPPING" and b is not None and b["k"] == "W" and b["v"] == "rep" and b["x"] == "ENDING"))
+            if prev_run and left and nxt is not None and nxt["v"] == "clear":
                 sig.add("race|start_before_wakeup_cleared")
     return sig
 
@@ -123,17 +136,35 @@ def observables(ctx, sc, label, case):
                 nexec += 1
         if nexec:
             probs.append(("stop_from_listener_ignored", f"a START_EVENT listener's stop() returned normally but the run thread went on to execute {nexec} event(s) in that segment"))
-    segments = sum(1 for d in SCHED.log if d["t"] == "w" and d["k"] == "W" and d["v"] == "runflag")
+    segments = sum(1 for d in SCHED.log if d["t"] == "w" and d["k"] == "W" and d["v"] == "runflag" and d["x"] in (True, "True"))
     if st["rs"] in ("STARTING", "STARTED", "STOPPING"):
         probs.append(("stuck_state", f"at quiescence run_state = {st['rs']} (replication_state = {st['rep']}); commands returned {st['results']}"))
-    if starts_ok != segments:
-        probs.append(("lost_start", f"{starts_ok} start() calls returned normally but the run thread ran {segments} segment(s); final run_state {st['rs']}"))
+    if segments > starts_ok:
+        probs.append(("spurious_segment", f"the run thread ran {segments} segment(s) for {starts_ok} start() calls that returned normally"))
+    # an accepted start() takes effect: after its STARTING write the run thread executes an event or ends the replication,
+    # unless a later accepted stop() / cleanup() / end_replication() supersedes it
+    log = SCHED.log
+    for k0, d in enumerate(log):
+        if d["k"] == "W" and d["v"] == "rs" and d["x"] == "STARTING":
+            eff = False
+            for e in log[k0 + 1:]:
+                if e["t"] == "w" and (e["k"] == "exec" or (e["k"] == "W" and e["v"] == "rep" and e["x"] in ("ENDING", "ENDED"))):
+                    eff = True
+                    break
+                if e["t"] == "c" and e["k"] == "W" and ((e["v"] == "rs" and e["x"] in ("STOPPING", "NOT_INITIALIZED")) or (e["v"] == "rep" and e["x"] == "ENDING")):
+                    eff = True          # superseded by a later command
+                    break
+            if not eff:
+                probs.append(("lost_start", f"a start() on thread {d['t']} wrote STARTING and returned, but the run thread neither executed an event nor ended the replication afterwards; "
+                                            f"final run_state {st['rs']}, {starts_ok} accepted start(s), {segments} segment(s)"))
+                break
+    if ("cleanup", "ok") in st["results"] and (st["rs"] != "NOT_INITIALIZED" or st["rep"] != "NOT_INITIALIZED" or "w" not in st["done"]):
+        probs.append(("cleanup_not_final", f"cleanup() returned but at quiescence run_state = {st['rs']}, replication_state = {st['rep']}, run thread finished = {'w' in st['done']}"))
     ends_ok = sum(1 for c_, r in st["results"] if c_ == "end_replication" and r == "ok")
     if ends_ok and (st["rep"] != "ENDED" or st["rs"] != "ENDED" or "w" not in st["done"]):
         probs.append(("end_replication_lost", f"end_replication() returned normally but at quiescence replication_state = {st['rep']}, run_state = {st['rs']}, run thread finished = {'w' in st['done']}"))
     if st["rep"] == "ENDED" and (st["rs"] != "ENDED" or "w" not in st["done"]):
         probs.append(("ended_not_final", f"replication ENDED but run_state = {st['rs']}, run thread finished = {'w' in st['done']}"))
-    log = SCHED.log
     for k0, d in enumerate(log):
         if d["t"] == "w" and d["k"] == "exec" and int(d["x"]) in getattr(sc.model, "stoppers", ()):
             seg = []
@@ -143,7 +174,8 @@ def observables(ctx, sc, label, case):
                 seg.append(e)
             accepted = any(e["t"] == "w" and e["k"] == "sleep" for e in seg) or any(e["t"] == "w" and e["k"] == "W" and e["x"] == "STOPPING" for e in seg)
             refused_in_handler = not accepted and any(e["t"] == "w" and e["k"] == "R" and e["v"] == "rs" and e["x"] not in ("STARTED", "STARTING") for e in seg[:2])
-            if any(e["t"] == "w" and e["k"] == "exec" for e in seg) and not refused_in_handler:
+            superseded = any(e["t"] == "c" and e["k"] == "W" and e["v"] == "rs" and e["x"] == "STARTING" for e in seg)     # a start() admitted during the handler's stop keeps the loop running
+            if any(e["t"] == "w" and e["k"] == "exec" for e in seg) and not refused_in_handler and not superseded:
                 probs.append(("stop_from_handler_ignored", f"the handler of event {d['x']} called stop() but the run thread went on executing events in the same segment"))
     # an accepted stop() takes effect: after the caller's STOPPING write the run thread finishes at most the event in progress
     for k0, d in enumerate(log):
@@ -170,7 +202,7 @@ def observables(ctx, sc, label, case):
             k = "race|end_replication_wakeup_cleared"
         elif "race|late_stopping_write" in sig and key in ("stuck_state", "ended_not_final"):
             k = "race|late_stopping_write"
-        elif "race|start_before_wakeup_cleared" in sig:
+        elif "race|start_before_wakeup_cleared" in sig and key in ("lost_start", "stuck_state"):
             k = "race|start_before_wakeup_cleared"
         ctx.violation(k or f"overlap|{key}", f"{label}: {detail}", case)
     return probs
@@ -326,7 +358,7 @@ def overlap_layer(ctx: Ctx):
             tc = dict(c)
             mod = ("---- MODULE TraceSimThreads_gen ----\nEXTENDS TraceSimThreads\n" + "\n".join(f"c_{k} == {v}" for k, v in tc.items()) + "\n====\n")
             cfgt = ("SPECIFICATION TraceSpec\nCONSTANTS\n" + "\n".join(f"  {k} <- c_{k}" for k in tc) +
-                    "\nCONSTRAINT Progress\nPOSTCONDITION Post\n" + "\n".join(f"INVARIANT {i}" for i in ("InvNoStuckStateK", "InvNoLostStartK", "InvEndedFinalK", "InvThreadGoneK", "InvRefused", "InvStopEffectiveK", "InvEndRepEffectiveK")) +
+                    "\nCONSTRAINT Progress\nPOSTCONDITION Post\n" + "\n".join(f"INVARIANT {i}" for i in ("InvNoStuckStateK", "InvStartEffectiveK", "InvNoSpuriousSegment", "InvCleanupFinalK", "InvEndedFinalK", "InvThreadGoneK", "InvRefused", "InvStopEffectiveK", "InvEndRepEffectiveK")) +
                     "\nCHECK_DEADLOCK FALSE\n")
             rej, st = traces.validate("TraceSimThreads_gen", "TraceSimThreads_gen.cfg", trs, extra_files={"TraceSimThreads_gen.tla": mod, "TraceSimThreads_gen.cfg": cfgt},
                                       timeout=1800, deque=True)
